@@ -551,7 +551,7 @@ impl Parser {
                     left.clone().unwrap(),
                     match not {
                         false => Op::Gte,
-                        true => Op::Lte,
+                        true => Op::Lt,
                     },
                     left_between.unwrap(),
                 );
@@ -559,7 +559,7 @@ impl Parser {
                     left.unwrap(),
                     match not {
                         false => Op::Lte,
-                        true => Op::Gte,
+                        true => Op::Gt,
                     },
                     right_between.unwrap(),
                 );
